@@ -43,6 +43,22 @@ def gen_desc(verif_seed: int, i: int, tier: str = "quick") -> dict:
         "shim": rng.random() < 0.93,
         "max_failures": None,
     }
+    r2 = random.Random(rs ^ 0xC10A)
+    if malformed is None and r2.random() < 0.2:
+        # the source request carries a credential that sits in the case (a --set-header override of the apiKey parameter) and a
+        # check that sends requests of its own (ignored_auth) runs between the source exchange and the evaluation of the link;
+        # one link per collection forwards the credential header of the *sent* request
+        key = "k%d" % r2.randrange(10**5)
+        udesc["security"] = {"scheme": "apikey", "header": "X-API-Key", "expected": {"header": "X-API-Key", "value": key}}
+        for c in udesc["collections"]:
+            c["secured"] = list(c["kinds"])
+            cands = [l for l in c["links"] if not l.get("malformed") and any(k in ("id", "path.id") for k in l["params"])]
+            if cands:
+                victim = cands[r2.randrange(len(cands))]
+                k = next(k for k in victim["params"] if k in ("id", "path.id"))
+                victim["params"][k] = "$request.header.X-API-Key"
+        cfg["override"] = {"headers": {"X-API-Key": key}}
+        cfg["checks"] = ["not_a_server_error", "ignored_auth"]
     return {
         "property": PROPERTY,
         "profile": "c10",
